@@ -91,6 +91,38 @@ def _run_tac(program, specs, now):
     return sorted({repr(c.env.get("$ret")) for c in out.get("return")} | {f"raise {getattr(c.env.get('$exc'), 'cls', '?')}" for c in out.get("raise")})
 
 
+def guards_during_stop_rule(ctx, program, rid):
+    from ..absint import Sym
+    uid = "decorator_abc.py::DecoratorManager.stop"
+    decs = ListV((ObjV("time_trigger", "TimeTriggerDecorator"), ObjV("state_active", "StateActiveDecorator"), ObjV("time_active", "TimeActiveDecorator")), "list")
+    seen = []
+
+    def stop_dec(i, n, a, k, c, o):
+        seen.append((a[0] if a else c.env.get("decorator"), c.heap.get("self._decorators"), c.heap.get("self.status")))
+        return [(c, NONE)]
+
+    pol = FlowPolicy(program, may_raise_all=False, cancel=False, summaries={"self._stop_decorator": stop_dec},
+                     inline={"DecoratorManager.update_status", "self.update_status", "self.get_decorators", "DecoratorManager.get_decorators"})
+    pol.loop_unroll = 5
+    heap = {"self._decorators": decs, "self.status": Sym(("clsattr", "DecoratorManagerStatus", "RUNNING")), "self.name": Const("f")}
+    out = run_flow(program, uid, pol, args={"self": ObjV("self", "DecoratorManager")}, heap=heap)
+    ex = exits(out)
+    bad = None
+    if not ex or any(k != "return" for k, c, d in ex):
+        bad = f"stop() ends {[d for k, c, d in ex]}"
+    elif sorted(repr(x[0]) for x in seen) != sorted(repr(d) for d in decs.items):
+        bad = f"decorators stopped: {[repr(x[0]) for x in seen]}"
+    else:
+        for dec, lst, st in seen:
+            have = list(lst.items) if isinstance(lst, ListV) else []
+            missing = [repr(d) for d in decs.items[1:] if d not in have]
+            if missing:
+                bad = (f"while {dec!r} is being stopped (a time trigger dispatches its 'shutdown' occurrence there) the manager's decorator list is {have!r}: the guards {missing} are gone, "
+                       f"so the shutdown run is not judged by them")
+                break
+    ctx.check(bad is None, rid, uid, "guards present while the triggers are being stopped", msg=f"DecoratorManager.stop: {bad}", key="guards during stop", node=program.func(uid), rel="decorator_abc.py")
+
+
 def weekday_range_grid(ctx, program, rid):
     import datetime as _dt
     from ..absint import FuncV, DictV
@@ -276,6 +308,9 @@ def run(ctx):
     ctx.rule("R07.14", "range() with days of the week on concrete calendars: an instant is inside range(fri 18:00, mon 6:00) exactly from Friday 18:00 to the following Monday 6:00 "
              "(timer_active_check with the date parser inlined)", floor=8)
     weekday_range_grid(ctx, program, "R07.14")
+    ctx.rule("R07.15", "new subsystem: while a manager stops its decorators its guards are still in place - the 'shutdown' occurrence a time trigger dispatches from inside its "
+             "stop() is judged by @state_active / @time_active like any other occurrence", floor=1)
+    guards_during_stop_rule(ctx, program, "R07.15")
     ctx.rule("R07.5", "guards run only on the dispatch paths: never from direct calls of the function", floor=2)
     callers = set()
     for u in program.functions():
@@ -438,11 +473,15 @@ def legacy_now_freshness(ctx, program, rid):
     """One iteration of trigger_watch with an event notification, with and without a pending time trigger (the two wait branches)."""
     uid = "trigger.py::TrigInfo.trigger_watch"
     note = ListV([Const("event"), DictV([(Const("trigger_type"), Const("event"))])], "tuple")
-    for timed in (False, True):
-        def deliver(cfg, out):
+    for timed in (False, True, "due"):
+        def deliver(cfg, out, timed=timed):
             seen = cfg.heap.get("$got", Const(0)).v
             if seen >= 1:
                 out.add("raise", cfg.set("$exc", ExcV("CancelledError", "end of scenario")))
+                return []
+            if timed == "due":
+                # the wait for the pending time trigger runs out: the occurrence is the time trigger's own instant
+                out.add("raise", cfg.hset("$got", Const(seen + 1)).emit(("call", "notification", (), (), 0)).set("$exc", ExcV("TimeoutError", "time trigger due")))
                 return []
             return [(cfg.hset("$got", Const(seen + 1)).emit(("call", "notification", (), (), 0)), note)]
 
@@ -484,11 +523,15 @@ def legacy_now_freshness(ctx, program, rid):
                 reads = [j for j, x in enumerate(evs[:i]) if x[1] == "clock" and x[2] == (now,)]
                 if not notes:
                     bad = "the guard is evaluated before any notification"
+                elif timed == "due":
+                    if now != Sym(("next",)):
+                        bad = (f"a time trigger's occurrence is judged at {now!r} instead of its own instant: the task wakes up a little late, so an occurrence exactly on the end "
+                               f"of a range() is rejected (and accepted by `not range()`)")
                 elif not reads:
                     bad = f"the guard is evaluated at {now!r}, which is not a clock reading"
                 elif max(reads) < max(notes):
                     bad = (f"the guard is evaluated at {now!r}, read before the notification arrived (line {evs[max(reads)][4]}): an event arriving while the task sleeps towards a "
                            f"pending time trigger or hold is judged at the time the sleep began")
-        ctx.check(n_checks > 0 and bad is None, rid, uid, f"{'pending time trigger' if timed else 'no time trigger'}: now refreshed after the notification",
+        ctx.check(n_checks > 0 and bad is None, rid, uid, ("time trigger due: judged at its own instant" if timed == "due" else f"{'pending time trigger' if timed else 'no time trigger'}: now refreshed after the notification"),
                   msg=f"trigger_watch ({'with' if timed else 'without'} a pending time trigger): {bad or 'timer_active_check never reached'}", key=f"legacy now freshness timed={timed}",
                   node=program.func(uid), rel="trigger.py")
